@@ -13,8 +13,8 @@ CHECK = Check(
           "and an absent key followed by a further step (through a leaf these are the non-map steps), the empty path; on each path "
           "Get, Length, Capacity, Loop (no break, break at the 1st and 2nd call), Compare with 17 operator/operand pairs; Set of ten "
           "values (scalars, string, []byte, empty text, nil, nested maps; a stride of them in the quick tier) followed by reading the "
-          "path back and dumping the whole tree; Copy then Reset of the copy; Reset then Set; CopyTo into empty / populated / nil "
-          "destinations; DeepEqual. Seeded random histories (Set/Get/Length/Capacity/Compare/Loop/Copy/CopyTo/Reset, up to 12 steps, "
+          "path back and dumping the whole tree; Copy then Reset of the copy; Reset then Set; CopyTo into empty / populated "
+          "destinations, pointers to nil maps and (correspondence only) nil pointers; DeepEqual. Seeded random histories (Set/Get/Length/Capacity/Compare/Loop/Copy/CopyTo/Reset, up to 12 steps, "
           "whole tree dumped after every step). Memory sharing of Copy/CopyTo results and of stored strings/bytes is observed "
           "natively from address ranges. SHARED nested maps (tag share): two trees (the nine form pairs over two levels, /repo's test "
           "shape, the depth-4 chain; every nested-map path of the first) and holders appended by Get / Copy / re-wrapping a map in "
@@ -30,8 +30,8 @@ CHECK = Check(
                  "cyclic values are not generated (the theorems of the heap model hold for them, the Go code need not terminate); the harness "
                  "prints a map that contains itself as {CYCLE} and abandons the case",
                  "CopyTo whose destination object is reachable from its source is not generated (the result depends on map iteration order)",
-                 "in the heap model pointer cells of *map / **map have no identity (stranymap.go never writes one), nil holders and string / "
-                 "byte memory are left to the tree model",
+                 "in the heap model pointer cells of *map / **map have no identity (stranymap.go writes one only to replace a nil map, and "
+                 "nil holders are not part of that model); nil holders and string / byte memory are left to the tree model",
                  "map iteration order is not observed: Loop results are compared as sorted sets, under Break as count + membership",
                  "Get's (nil, nil) for a stored nil leaf is indistinguishable from 'no value' and printed alike",
                  "observations print a nil map / nil pointer holder as the empty map of its form (the specification's abstraction)",
@@ -45,7 +45,8 @@ MANIFEST = {
              "follows_path (each reading operation reports exactly what the specification says about the node the path denotes), "
              "C18_absent_no_error, C18_non_map_unsupported, C18_set_exact (Set refines the specification's tset: creates or replaces "
              "the leaf, creates intermediate maps, errors leave the tree untouched) with C18_set_hits / C18_set_frame (nothing off the "
-             "path changes) and C18_set_copies_into_buffer, C18_copy_equal / C18_copy_fresh / C18_copyto_equal_fresh, "
+             "path changes) and C18_set_copies_into_buffer, C18_copy_equal / C18_copy_fresh / C18_copyto_equal_fresh / "
+             "C18_copyto_any_source (nil sources, pointers to nil maps), "
              "C18_reset_empties / C18_reset_in_place, C18_history (fold_left over operation lists against the abstract tree), "
              "and over stores of map OBJECTS shared between trees and holders (Model/StrAnyMapHeap.v, any store, cyclic ones "
              "included): C18_share_reset_exact / _empties_addressed / _frame / _holders (Reset empties the object its argument "
@@ -53,12 +54,13 @@ MANIFEST = {
              "(Set writes only the object the path addresses) and C18_share_set_exact (Set is the specification's s_set when the "
              "path meets no object twice), C18_share_copyto_frame / _holders / _fresh, C18_share_copy_frame / _holders / _fresh "
              "(copies change nothing that existed and reach nothing that existed), "
-             "C18_*_never_panic. C18_refuted_* give the witnesses for the three defects repaired by fix commits (nil pointer "
-             "dereference, Capacity ending in Length, Reset of a by-value map) and for the three open nil-holder findings. The model "
+             "C18_*_never_panic. C18_refuted_* give the witnesses for the six defects repaired by fix commits (nil pointer "
+             "dereference, Capacity ending in Length, Reset of a by-value map, Set / CopyTo through a pointer to a nil map, CopyTo "
+             "from a nil map) and for the open finding (Set reaching a nil map held by value or a nil pointer). The model "
              "is tied to the code by running the extracted model and the real inspector on the same trees and histories."),
     "note": ("Trusted: Coq kernel, extraction (ExtrOcamlBasic+ExtrOcamlString), Go harness (tree construction, canonical printer, "
              "address-range sharing test). Modelled not verified: stranymap.go, the Compare arm of static.go for the generated leaf "
-             "kinds, strconv parsing (Base/Strconv.v, validated by its own stream). Set exactness assumes no nil map / nil pointer "
-             "holder in the tree (C18_refuted_set_nil_holder shows why). No axioms."),
+             "kinds, strconv parsing (Base/Strconv.v, validated by its own stream). Set exactness assumes that every nil holder in the "
+             "tree is a non-nil pointer to a nil map (settable; C18_refuted_set_nil_holder shows why). No axioms."),
     "technique": "Rocq refinement proof (model vs. abstract-tree specification) by induction over paths, trees and histories + extracted-model correspondence",
 }
